@@ -1377,6 +1377,19 @@ pub struct JsObject {
     pub private_fields: Option<FxHashMap<PrivateFieldKey, JsValue>>,
 }
 
+/// True if making `proto` the prototype of `obj` would close a cycle in the
+/// prototype chain (the chain of `proto` already leads to `obj`)
+pub fn prototype_chain_reaches(proto: &Gc<JsObject>, obj: &Gc<JsObject>) -> bool {
+    let mut current = Some(proto.clone());
+    while let Some(p) = current {
+        if Gc::ptr_eq(&p, obj) {
+            return true;
+        }
+        current = p.borrow().prototype.clone();
+    }
+    false
+}
+
 impl JsObject {
     /// Create a new ordinary object
     pub fn new() -> Self {
